@@ -25,7 +25,7 @@ def menu():
         ('ul>li*2', {}),
         ('p*', {'text': ['a', '', 'b']}),
         ('a[', {}),                                                           # raises in the parser
-        ('bad', {'text': 'hello', 'snippets': {'bad': '['}}),                 # raises during snippet resolution
+        ('bad', {'text': 'hello', 'snippets': {'bad': 'a+*'}}),               # raises during snippet resolution
         ('.b>.-e+.-f_m', {'options': {'bem.enabled': True}}),
         ('p10', {'type': 'stylesheet', 'options': {'stylesheet.intUnit': 'pt'}}),
         ('foo', {'type': 'stylesheet', 'snippets': {'foo': 'margin:10'}, 'options': {'stylesheet.intUnit': 'px'}}),
